@@ -862,11 +862,15 @@ def translate(repo):
         "Metrics_gen.v": emit_metrics(metrics),
         "Registry_gen.v": emit_registry(reg, wl, init_ok, ctors),
     }
+    sys.path.insert(0, os.path.dirname(os.path.abspath(__file__)))
+    import stores
+    sites = stores.collect(repo)
+    files["Stores_gen.v"] = stores.emit(sites)
     dump = dict(repo=os.path.abspath(repo),
                 consts={k: [str(v.numerator), str(v.denominator)] for k, v in consts.items()
                         if k in ("EPSILON", "MAX_ARC_WEIGHT", "MAX_DENSITY")},
                 decorator=dec, metrics=metrics, registry=reg, whitelist=wl, init_lookup_ok=init_ok,
-                ctor_forwards=ctors)
+                ctor_forwards=ctors, stores=[list(x) for x in sites])
     return files, dump
 
 
